@@ -92,17 +92,62 @@ fn scenario(name: &str, size: u8, n: usize, x: usize, crash: Option<CrashCfg>) -
 	s
 }
 
+const D: u16 = 0x4321;
+
+/// Growth already started (new index current, nothing migrated yet); a chain member K1 sits in the OLD index.
+/// Commits: more chain members (go to the new index), removal / replacement of K1, removal of a filler.
+fn pending_scenario(name: &str, n: usize, x: usize) -> Scenario {
+	let mut spec = ColSpec::hash();
+	spec.uniform = true;
+	let mut cfg = Config::new(vec![spec]);
+	cfg.salt = 0;
+	let mut fill = fill_tx();
+	fill.push((0, Op::Set(chain_key(D, 1), val(401))));
+	let over: Tx = vec![(0, Op::Set(page_key(C, 64), val(64)))];
+	let alpha: Vec<Tx> = vec![
+		vec![(0, Op::Set(chain_key(D, 2), val(402))), (0, Op::Set(chain_key(D, 3), val(403)))],
+		vec![(0, Op::Del(chain_key(D, 1)))],
+		vec![(0, Op::Set(chain_key(D, 1), val(501))), (0, Op::Del(page_key(C, 7)))],
+	];
+	let mut all = alpha.clone();
+	all.push(fill.clone());
+	all.push(over.clone());
+	let mut s = Scenario::new(name, cfg.clone(), alpha);
+	s.universe = universe_of(&cfg, &all, &[]);
+	s.init = vec![Ev::Commit(fill), Ev::Drain, Ev::Commit(over), Ev::Stage(St::P), Ev::Stage(St::F), Ev::Stage(St::E)];
+	s.max_commits = n;
+	s.max_rejects = 0;
+	s.max_reopen = x;
+	s.pm = true;
+	// commits are driven one at a time (commit, then P, F, E in that order before the next commit); reindex batches
+	// (at most 3) may come between any two of these steps; log cleanup is left to reopen
+	s.stages = vec![St::P, St::F, St::E, St::R];
+	s.filter = Some(Arc::new(|hist: &[Ev], ev: &Ev| {
+		let last_non_r = hist.iter().rev().find(|e| !matches!(e, Ev::Stage(St::R)));
+		match ev {
+			Ev::Stage(St::R) => hist.iter().filter(|e| matches!(e, Ev::Stage(St::R))).count() < 3,
+			Ev::Commit(_) => !matches!(last_non_r, Some(Ev::Commit(_)) | Some(Ev::Stage(St::P)) | Some(Ev::Stage(St::F))),
+			Ev::Stage(St::P) => matches!(last_non_r, Some(Ev::Commit(_))),
+			Ev::Stage(St::F) => matches!(last_non_r, Some(Ev::Stage(St::P))),
+			Ev::Stage(St::E) => matches!(last_non_r, Some(Ev::Stage(St::F)) | Some(Ev::Stage(St::E))) && hist.iter().rev().take_while(|e| matches!(e, Ev::Stage(St::E) | Ev::Stage(St::R))).filter(|e| matches!(e, Ev::Stage(St::E))).count() < 2,
+			_ => true,
+		}
+	}));
+	s
+}
+
 pub fn scenarios(tier: &str) -> Vec<Scenario> {
 	if tier == "thorough" {
 		vec![
 			scenario("growth/n3", 1, 3, 1, None),
+			pending_scenario("growth-pending/n3", 3, 1),
 			scenario("growth/n2", 1, 2, 1, None),
 			scenario("growth/n2-x2", 1, 2, 2, None),
 			scenario("growth-crash/n2", 0, 2, 1, Some(CrashCfg { torn: 1, recovery_depth: 2, ..Default::default() })),
 			scenario("growth-power-loss/n1", 0, 1, 0, Some(CrashCfg { torn: 0, recovery_depth: 1, power_loss: true, max_full_subsets: 8, ..Default::default() })),
 		]
 	} else {
-		vec![scenario("growth/n1", 1, 1, 1, None), scenario("growth-crash/n1-growth-only", 9, 1, 0, Some(CrashCfg { torn: 0, recovery_depth: 1, ..Default::default() }))]
+		vec![scenario("growth/n1", 1, 1, 1, None), pending_scenario("growth-pending/n2", 2, 0), scenario("growth-crash/n1-growth-only", 9, 1, 0, Some(CrashCfg { torn: 0, recovery_depth: 1, ..Default::default() }))]
 	}
 }
 
